@@ -26,6 +26,15 @@ CHECKS = {
  "C10": dict(level="exploration", technique="deterministic simulation: observed sampling sites under a keyed / scripted RNG seam (input channel), reference draw log, Hoeffding-band frequencies",
    text="Observer runs: every sampling site of a solve is observed (hooks H3/H4): Full draws nothing, Sampled draws no player actions, one draw per (site, pass), chance weights presented = declared weights normalised, each player draw = inverse CDF of the presented weights at the keyed variate, whole draw log = documented algorithm's. Scripted runs: the private categorical sampler (H7) on a scripted RngCore over weight vectors of length 1..8 and variates incl. every cumulative boundary +-2 ulp. Frequency runs: 1e5 keyed draws through the real chance / opponent sampling code, Hoeffding band with failure probability 1e-12.",
    note="Trusted: SplitMix64 as uniform source; boundary cases within a few ulp accept either neighbour.", ref="6 C10"),
+ "C15": dict(level="exploration", technique="deterministic simulation: the real main() inside a simulated execution (one process per run), seeded schedules and sampling histories; output judged by an independent evaluator",
+   text="Each run starts one `simcli` process: the repository's unmodified main() (argument parsing, input routing, parsers, solve, clip, JSON output) inside one simulated execution with the rayon stand-in, a seeded scheduler, keyed sampling and core-count override. Inputs are generated valid games written by the harness's own JSON-DSL / Gambit writers using the formats' freedom (constant sums != 0, interior payoffs, shared outcomes, unnamed infosets, rational / decimal probabilities, shuffled action lists, multi-byte names). Oracle: exit 0, exactly one result object, valid profiles over exactly the file's infosets and actions, every printed number = independent evaluation of the PRINTED strategies on the game as written (own payoffs; utilities add up to the constant), total regret = max.",
+   note="Trusted: independent evaluator and writers; process start and the pipe/file carrying the input are outside the simulator (their content is decided by the driver, verdicts do not depend on timing).", ref="6 C15"),
+ "C16": dict(level="exploration", technique="deterministic simulation with fault injection: real main() in a simulated execution vs in-process library under the same seeds; fault-injecting Read seam (chunking, EINTR, EIO, early EOF) on the binary's readers",
+   text="Five kinds of run: (a) the printed strategies of one simcli process equal Game::solve run in-process for the documented meaning of -m, -d, -t (0 = unlimited), -r, -p (0 = core count; the stand-in reports the pool size the program asked for) under the same sampling seed - bit-exact at one thread; (b) the same bytes through two routes (file/stdin, extension, --input-format, -o) give the identical object; (c) the binary's own readers called in-process on a seeded fault-injecting Read (chunks down to 1 byte, Interrupted between chunks, multi-byte UTF-8 split across chunks, hard error, early EOF): same game or rejection, never a wrong game; (d) JSON and Gambit encodings of one game give one solution; (e) clip: printed profile = own truncation of the library result iff its independently evaluated regret is strictly lower, always a valid profile.",
+   note="Trusted: as C15; numbers parsed back from JSON are compared up to one ulp; K > 1 comparisons use the C06 tolerance and conditioning guard.", ref="6 C16"),
+ "C17": dict(level="fault_enumeration", technique="deterministic simulation with fault injection: enumerated stored-file faults (every truncation offset, known-invalid corruptions per format and per contract rule, byte flips, bad UTF-8, read error) against the real readers and the real main()",
+   text="Fault kinds are enumerated round-robin over generated valid files: truncation at every byte offset (in-process through the format's reader and the auto reader) plus sampled offsets through the real process; empty/blank file; invalid UTF-8; real read error; 23 grammar-aware corruptions whose invalidity is known by construction (JSON field/type/prob faults, Gambit player count / constant sum / 1e400 / distribution / outcome / name clash, and every library contract rule in both encodings); byte flips with the weak invariant only. Strong oracle: exit != 0, empty stdout, no -o file, stderr names a documented category. Weak invariant: never a result and a failure; exit 0 implies one complete valid result object.",
+   note="Trusted: the construction of each known-invalid corruption; documented categories = README anchors plus the two documented Gambit messages. Fault kinds and truncation offsets are enumerated; the files they are applied to are sampled.", ref="6 C17"),
  "C05": dict(level="exploration", technique="deterministic simulation with fault injection: seeded search over configurations x schedules with injected pool-build failures, core-count faults, oversubscription and starved workers; deadlock / step-budget / panic detection",
    text="Every run executes one seeded point of the full configuration product (methods, RegretParams::new tuples incl. +-inf and +-1e3, presets, None, T incl. 0, thresholds incl. negative/NaN/inf, num_threads incl. 0 and the overflow boundary) inside one simulated execution. Injected faults: thread-pool construction failure, too many threads, unknown / overridden core count, starved worker (PCT schedule), fewer tasks than workers, stub coins. Oracle: no panic in any task, no deadlock, step budget respected, Ok / ThreadOverflow / ThreadSpawnError exactly where expected (1 thread never errors), well-formed profile and bounds on Ok, and after an injected failure the retried call succeeds and equals a fault-free run. Contract-edge trees (own action forgotten; one action here, several there) are fed to from_root as well. Fault kinds are enumerated; schedules and inputs are sampled.",
    note="Trusted: stand-in fails pool builds above 4096 threads as the real pool does in this sandbox; allocation failure not modelled; hang = step budget on decision-node visits + shuttle deadlock detector.", ref="6 C05"),
